@@ -38,11 +38,11 @@ theorem C16_exact (hinj : ∀ d d', dayStr d = dayStr d' → d = d') (hns : ∀ 
   refine ⟨l, hl, fun id => (hmem id).trans ?_⟩
   constructor
   · rintro ⟨r, hr, hid, hc, _, hw, hf⟩
-    simp only [windowPred, Bool.and_eq_true, decide_eq_true_eq] at hw
+    simp only [windowPred_def, Bool.and_eq_true, decide_eq_true_eq] at hw
     exact ⟨r, hr, hid, ⟨hc, hf⟩, hw.1, hw.2⟩
   · rintro ⟨r, hr, hid, ⟨hc, hf⟩, h1, h2⟩
     refine ⟨r, hr, hid, hc, day_mem_prefixDays h1 h2, ?_, hf⟩
-    simp [windowPred, h1, h2]
+    simp [windowPred_def, h1, h2]
 
 /-- Exactness with the default end.  The code bounds only the enumeration of day folders by `now`
 (`end_date or utcnow()`), not the last-modified predicate; "end defaulting to now" is therefore exact under the premise
@@ -58,11 +58,11 @@ theorem C16_default_end (hinj : ∀ d d', dayStr d = dayStr d' → d = d') (hns 
   refine ⟨l, hl, fun id => (hmem id).trans ?_⟩
   constructor
   · rintro ⟨r, hr, hid, hc, _, hw, hf⟩
-    simp only [windowPred, Bool.and_true, decide_eq_true_eq] at hw
+    simp only [windowPred_def, Bool.and_true, decide_eq_true_eq] at hw
     exact ⟨r, hr, hid, ⟨hc, hf⟩, hw⟩
   · rintro ⟨r, hr, hid, ⟨hc, hf⟩, h1⟩
     refine ⟨r, hr, hid, hc, day_mem_prefixDays h1 (hnow r hr), ?_, hf⟩
-    simp [windowPred, h1]
+    simp [windowPred_def, h1]
 
 /-- "None outside" does not even depend on the day enumeration: whatever day folders are listed (`days` arbitrary), every
 returned recording lies within the window, because the last-modified predicate is applied inside every folder. -/
@@ -76,7 +76,7 @@ theorem C16_none_outside (days : Nat → Nat → List Nat) (hinj : ∀ d d', day
     shuf hshuf
   refine ⟨l, hl, fun id hid => ?_⟩
   obtain ⟨r, hr, hid, hc, _, hw, hf⟩ := (hmem id).1 hid
-  simp only [windowPred, Bool.and_eq_true, decide_eq_true_eq] at hw
+  simp only [windowPred_def, Bool.and_eq_true, decide_eq_true_eq] at hw
   exact ⟨r, hr, hid, ⟨hc, hf⟩, hw.1, hw.2⟩
 
 /-- Before the `fix:` commit (F7) the enumeration counted whole 24 h periods: with the window 23:00 → 01:00 (next day)
